@@ -150,6 +150,12 @@ def TM.setRecurring (tm : TM) (tid : Nat) (iv? off? : Option Nat) : TM :=
       | some o => upd tm.ioff tid (some o)
       | none => tm.ioff }
 
+/-- `if self.taskIntervalOffset: offset = â€¦ else: offset = 0.0` â€” None and 0 both give 0 -/
+def TM.offsetOf (tm : TM) (tid : Nat) : Nat :=
+  match tm.ioff tid with
+  | some o => o
+  | none => 0
+
 /-- `RecurringTask.install_task(interval, offset)` at manager time `now`.
     The attribute updates precede the checks, so a refused call still changes
     `taskInterval`/`taskIntervalOffset`. -/
@@ -160,11 +166,7 @@ def TM.installRecurring (tm : TM) (now tid : Nat) (iv? off? : Option Nat) : TM Ã
   | some iv =>
     if iv = 0 then (tm, some .intervalNotPositive)
     else
-      -- `if self.taskIntervalOffset:` â€” None and 0 both give 0.0
-      let off := match tm.ioff tid with
-        | some o => o
-        | none => 0
-      let t := (slotAfter (now + tm.jitter) iv off).toNat
+      let t := (slotAfter (now + tm.jitter) iv (tm.offsetOf tid)).toNat
       ({ tm with ttime := upd tm.ttime tid (some t) }).install tid
 
 /-- `TaskManager.get_next_task` at time `now`: the popped entry (if the head is
